@@ -19,11 +19,11 @@ def mapSpec {α} (src : List α) (inv : Int) (empty : α) : List Int → Option 
 
 /-- every entry of the map is the marker or a row number of a source with `n` rows -/
 def InRange (n : Nat) (m : List Int) (inv : Int) : Prop :=
-  ∀ (i : Nat) (h : i < m.length), m[i] ≠ inv → 0 ≤ m[i] ∧ m[i] < n
+  ∀ (i : Nat) (k : Int), m[i]? = some k → k ≠ inv → 0 ≤ k ∧ k < n
 
 /-- the valid (non-marker) entries are non-decreasing; markers may be anywhere -/
 def ValidMonotone (m : List Int) (inv : Int) : Prop :=
-  ∀ (i j : Nat) (hi : i < m.length) (hj : j < m.length), i ≤ j → m[i] ≠ inv → m[j] ≠ inv → m[i] ≤ m[j]
+  ∀ (i j : Nat) (a b : Int), i ≤ j → m[i]? = some a → m[j]? = some b → a ≠ inv → b ≠ inv → a ≤ b
 
 /-- the markers `DataFrame.merge` and the tests use -/
 def INVALID_INDEX_32 : Int := 2147483647
